@@ -82,7 +82,7 @@ TEXT = {
                 technique='Lean 4 proof (event-level round trip) + differential correspondence', ref='DESIGN.md 5 C14'),
     'C16': dict(level='complete_graph model theorem; karate table regenerated from the source and decided by the kernel; G(n,p) model over the '
                 'skip sequence with structure theorems; structure checker on every generated graph, statistical mean-edge-count test.',
-                note='Partial: the distribution claim rests on textbook probability + the statistical test; ChaCha20 and ln are library code.',
+                note='Partial: the undirected distribution is proved from the assumption that the skips are independent geometric(p) (ChaCha20, ln and the uniform->geometric transformation are library code, tested statistically); the directed law (diagonal redirect) is tested statistically only.',
                 technique='Lean 4 proof + translator (karate) + differential correspondence + statistical test', ref='DESIGN.md 5 C16'),
     'C17': dict(level='Repeated calls in one process, inside rayon pools of 1 and 4 threads and in a second process must agree exactly (Louvain on '
                 'tie-rich graphs, G(n,p)); theorem that the deterministic tie-break (argmax over a sorted candidate list) is independent of '
@@ -127,7 +127,8 @@ MODEL_LEVEL.update({
     'C05': 'Model level (Props/C05Full): the Brandes model (BFS / Dijkstra stage with path counts, accumulation, rescale) equals the definition by enumeration '
            'of all shortest paths on every store reachable through the mutation API, both modes, raw and normalised (C05_full_statement_reachable).',
     'C16': 'Props/C16Store: the generated graph never fails for any skip sequence, has nodes 0..n-1 and exactly the emitted pairs; every subset of the undirected '
-           'slots and every directed pair is produced by some skip sequence.',
+           'slots and every directed pair is produced by some skip sequence. Props/C16Dist: the undirected generator is the plain slot process; with independent geometric(p) '
+           'skips the probability of emitting exactly a given set S of pairs is p^|S| (1-p)^(N-|S|) (HasSum over the preimage, which is characterised exactly), masses sum to 1, mean = pN.',
     'C17': 'Props/C17Model: the Louvain visit / sweep / level of the step model are independent of the iteration order of the candidate-community map.',
 })
 MODEL_LEVEL.update({
